@@ -213,12 +213,13 @@ func (in *vInst) event(api string, zip bool, got bool, caseNo int) map[string]in
 }
 
 // honestEntry returns a valid (key, msg, sig) for the options of in.
-func honestEntry(in *vInst, r *hx.Rng) (ed25519.PublicKey, []byte, []byte) {
-	priv := ed25519.NewKeyFromSeed(r.Bytes(32))
+func honestEntry(tr *hx.Trace, in *vInst, r *hx.Rng) (ed25519.PublicKey, []byte, []byte) {
+	priv := sNewKey(tr, r.Bytes(32))
 	msg := msgFor(in.variant, r)
-	sig, err := priv.Sign(nil, msg, in.opts(false))
+	sig, err := sSign(tr, priv, nil, msg, in.opts(false))
 	if err != nil {
-		panic(err)
+		note(tr, "unexpected error from PrivateKey.Sign: "+err.Error())
+		sig = make([]byte, 64)
 	}
 	return priv.Public().(ed25519.PublicKey), msg, sig
 }
@@ -227,10 +228,10 @@ func honestEntry(in *vInst, r *hx.Rng) (ed25519.PublicKey, []byte, []byte) {
 func callAll(tr *hx.Trace, in *vInst, r *hx.Rng, caseNo int, withBatch bool) {
 	key := ed25519.PublicKey(in.A.Bytes[:])
 	if in.variant == "pure" {
-		tr.Emit(in.event("Verify", false, ed25519.Verify(key, in.msg, in.sig), caseNo))
+		tr.Emit(in.event("Verify", false, sVerify(tr, key, in.msg, in.sig), caseNo))
 	}
 	for _, zip := range []bool{false, true} {
-		tr.Emit(in.event("VerifyWithOptions", zip, ed25519.VerifyWithOptions(key, in.msg, in.sig, in.opts(zip)), caseNo))
+		tr.Emit(in.event("VerifyWithOptions", zip, sVerifyOpts(tr, key, in.msg, in.sig, in.opts(zip)), caseNo))
 	}
 	if !withBatch {
 		return
@@ -245,13 +246,10 @@ func callAll(tr *hx.Trace, in *vInst, r *hx.Rng, caseNo int, withBatch bool) {
 			if i == pos {
 				keys[i], msgs[i], sigs[i] = key, in.msg, in.sig
 			} else {
-				keys[i], msgs[i], sigs[i] = honestEntry(in, r)
+				keys[i], msgs[i], sigs[i] = honestEntry(tr, in, r)
 			}
 		}
-		ok, valid, err := ed25519.VerifyBatch(r, keys, msgs, sigs, in.opts(zip))
-		if err != nil {
-			panic(err)
-		}
+		ok, valid, _ := sBatch(tr, r, keys, msgs, sigs, in.opts(zip))
 		ev := in.event("VerifyBatch", zip, valid[pos], caseNo)
 		ev["batch_n"], ev["batch_pos"], ev["batch_ok"] = n, pos, ok
 		tr.Emit(ev)
@@ -416,7 +414,7 @@ func scMinDirect(tr *hx.Trace, r *hx.Rng, thorough bool) {
 			return
 		}
 		b := refmodel.LE(v, 32)
-		tr.Emit(map[string]interface{}{"op": "scmin", "S": hx.Ints(b), "got": ed25519.VerifScMinimal(b), "cfg": *fCfg})
+		tr.Emit(map[string]interface{}{"op": "scmin", "S": hx.Ints(b), "got": sScMin(tr, b), "cfg": *fCfg})
 	}
 	L := refmodel.L
 	// around k*L for every k that fits, and around every boundary
@@ -483,7 +481,7 @@ func scMinDirect(tr *hx.Trace, r *hx.Rng, thorough bool) {
 // smallOrderDirect drives isSmallOrderVartime.
 func smallOrderDirect(tr *hx.Trace, r *hx.Rng, so [][32]byte, nc []hx.PT, thorough bool) {
 	emit := func(p hx.PT) {
-		tr.Emit(map[string]interface{}{"op": "smallorder", "P": p.Desc(), "got": ed25519.VerifIsSmallOrderVartime(p.Bytes[:]), "cfg": *fCfg})
+		tr.Emit(map[string]interface{}{"op": "smallorder", "P": p.Desc(), "got": sSmallOrder(tr, p.Bytes[:]), "cfg": *fCfg})
 	}
 	for i := range so {
 		emit(hx.FromBytes(so[i][:], fmt.Sprintf("so%d", i)))
@@ -508,4 +506,14 @@ func smallOrderDirect(tr *hx.Trace, r *hx.Rng, so [][32]byte, nc []hx.PT, thorou
 			emit(hx.KT(k, t, 0, "small-k"))
 		}
 	}
+}
+
+func sScMin(tr *hx.Trace, b []byte) (ok bool) {
+	guard(tr, "scMinimal", func() { ok = ed25519.VerifScMinimal(b) })
+	return
+}
+
+func sSmallOrder(tr *hx.Trace, b []byte) (ok bool) {
+	guard(tr, "isSmallOrderVartime", func() { ok = ed25519.VerifIsSmallOrderVartime(b) })
+	return
 }
